@@ -8,8 +8,8 @@
     [cmd_ok dw c]: the arguments are built ([arg_ok]: the number of values is resolved, a positional takes
     a value and has an index) and every rendered left column is at most 65 523 columns wide (observation N:
     core::fmt limits run-time widths to u16; the bound is 65 535 - 12). *)
-From ClapModel Require Import Base.Bytes Base.Machine Parse.Cmd Parse.Build Parse.Errors Parse.Parser.
-From ClapModel Require Import Gen.HelpTables Help.UsageModel Help.HelpModel Help.HelpProofs Help.HelpLevel.
+From ClapModel Require Import Base.Bytes Base.Machine Parse.Cmd Parse.Build Parse.Valid Parse.Errors Parse.Parser.
+From ClapModel Require Import Gen.HelpTables Help.UsageModel Help.HelpModel Help.HelpProofs Help.HelpLevel Help.HelpSpecVals Help.HelpDispatch Help.HelpUsage Help.HelpGlobals.
 From RecordUpdate Require Import RecordSet.
 Import RecordSetNotations.
 Open Scope N_scope.
@@ -120,3 +120,142 @@ Theorem C12_hypotheses_satisfiable :
   /\ NoDup (map ha_id (hc_args (h_build_self ex_cmd))) /\ NoDup (map sc_str (hc_subs (h_build_self ex_cmd))).
 Proof. exact ex_cmd_hyps. Qed.
 Print Assumptions C12_hypotheses_satisfiable.
+
+(** ---- round 2: [spec_vals] (env, defaults, aliases, possible values) ---- *)
+
+(** nothing hidden appears anywhere: two commands that differ only in hidden possible values (name, help),
+    in aliases / short aliases that are not visible, in the env entry under [hide_env], the env value under
+    [hide_env_values] or the defaults under [hide_default_value] ([erase_cmd] blanks exactly these) render the
+    same screen, in every mode, at every width, for every display-width function (panic included) *)
+Theorem C12_hidden_content_noninterference : forall dw c c' use_long w,
+  erase_cmd c = erase_cmd c' -> write_help dw c use_long w = write_help dw c' use_long w.
+Proof. exact hidden_content_noninterference. Qed.
+Print Assumptions C12_hidden_content_noninterference.
+
+(** every row of every section is the row of a shown argument, carrying exactly [spec_vals use_long a] as its
+    spec text and the names of the not-hidden values as its long-form list, or a subcommand row without either *)
+Theorem C12_row_spec_vals : forall dw c use_long w s sec r,
+  write_help dw c use_long w = Some s -> In sec (scr_sections s) -> In r (s_rows sec) ->
+  (exists a, In a (hc_args c) /\ should_show_arg use_long a = true /\ r_id r = ha_id a
+             /\ r_spec r = spec_vals use_long a /\ r_long_pvs r = long_list use_long a)
+  \/ (exists sc, In sc (hc_subs c) /\ hc_hide sc = false /\ r_id r = hc_name sc /\ r_spec r = [] /\ r_long_pvs r = []).
+Proof. exact row_spec_vals. Qed.
+Print Assumptions C12_row_spec_vals.
+
+(** every possible value that is not hidden is listed in the row of its argument when the argument is shown
+    and [hide_possible_values] is off *)
+Theorem C12_visible_pv_listed : forall dw c use_long w s a pv,
+  NoDup (map ha_id (hc_args c)) -> write_help dw c use_long w = Some s ->
+  In a (hc_args c) -> should_show_arg use_long a = true -> ha_hide_pv a = false ->
+  In pv (ha_possible_values a) -> pv_hide pv = false ->
+  exists sec r, In sec (scr_sections s) /\ s_title sec = arg_section_title a /\ In r (s_rows sec) /\ r_id r = ha_id a
+    /\ r_spec r = intercalate (if use_long then [10] else [32]) (spec_vals_list use_long a)
+    /\ ((use_long_pv use_long a = true /\ In (pv_name pv) (r_long_pvs r))
+        \/ (use_long_pv use_long a = false
+            /\ In (s_pv_open ++ intercalate [44; 32] (pv_quoted_names a) ++ [93]) (spec_vals_list use_long a)
+            /\ In (quote_if_ws (pv_name pv)) (pv_quoted_names a))).
+Proof. exact visible_pv_listed. Qed.
+Print Assumptions C12_visible_pv_listed.
+
+(** the values a row lists are values that are not hidden (both forms) *)
+Theorem C12_listed_pv_visible : forall use_long a n,
+  (In n (long_list use_long a) \/ In n (pv_quoted_names a)) ->
+  exists pv, In pv (ha_pvs a) /\ pv_hide pv = false /\ (pv_name pv = n \/ quote_if_ws (pv_name pv) = n).
+Proof. exact listed_pv_visible. Qed.
+Print Assumptions C12_listed_pv_visible.
+
+(** non-vacuity: two built commands that differ in hidden content only; every hypothesis above holds *)
+Theorem C12_spec_vals_satisfiable :
+  erase_cmd sv_cmd = erase_cmd sv_cmd' /\ sv_cmd <> sv_cmd'
+  /\ NoDup (map ha_id (hc_args sv_cmd)) /\ cmd_ok len sv_cmd
+  /\ (exists a pv, In a (hc_args sv_cmd) /\ should_show_arg false a = true /\ ha_hide_pv a = false
+                   /\ In pv (ha_possible_values a) /\ pv_hide pv = false).
+Proof. exact sv_hyps5. Qed.
+Print Assumptions C12_spec_vals_satisfiable.
+
+(** observation: a default value that names a hidden possible value is printed ([default: sec]) *)
+Theorem C12_default_names_hidden_pv :
+  exists a pv, In pv (ha_pvs a) /\ pv_hide pv = true
+    /\ spec_vals false a = s_default_open ++ pv_name pv ++ [93; 32] ++ s_pv_open ++ [97; 93].
+Proof. exact default_names_hidden_pv. Qed.
+Print Assumptions C12_default_names_hidden_pv.
+
+(** ---- round 2: the help flag yields the help of the level it was given at (parser model) ---- *)
+
+(** [bin name_1 .. name_k --help anything..]: when the names form a chain of subcommand names / aliases
+    ([help_chain]: UTF-8 names, no inference / ignore_errors on the way, not the generated [help] subcommand,
+    aliases resolve consistently) and [--help] is a help flag of the level [lv] the chain ends at
+    ([long_help_at]), [try_get_matches_from] returns the DisplayHelp error of [lv] -- the level
+    [p_level_walk] reaches -- in the mode the flag's action asks for, whatever follows the flag *)
+Theorem C12_help_flag_long_level : forall c0 bin names rest lv ul,
+  is_set s_no_binary_name c0 = false -> c_bin_name c0 <> None ->
+  valid c0 = true -> help_chain (build_self c0) names = Some lv -> long_help_at lv ul = true ->
+  parse_top c0 (bin :: names ++ tok_help_long :: rest) = OErr (help_err lv ul)
+  /\ p_level_walk (build_self c0) names = Some lv
+  /\ e_kind (help_err lv ul) = EDisplayHelp /\ e_cmd (help_err lv ul) = opt_default [] (c_about lv)
+  /\ e_long (help_err lv ul) = ul.
+Proof. exact help_flag_long_level. Qed.
+Print Assumptions C12_help_flag_long_level.
+
+(** the same for [-h] *)
+Theorem C12_help_flag_short_level : forall c0 bin names rest lv ul,
+  is_set s_no_binary_name c0 = false -> c_bin_name c0 <> None ->
+  valid c0 = true -> help_chain (build_self c0) names = Some lv -> short_help_at lv ul = true ->
+  parse_top c0 (bin :: names ++ tok_help_short :: rest) = OErr (help_err lv ul)
+  /\ p_level_walk (build_self c0) names = Some lv
+  /\ e_kind (help_err lv ul) = EDisplayHelp /\ e_cmd (help_err lv ul) = opt_default [] (c_about lv)
+  /\ e_long (help_err lv ul) = ul.
+Proof. exact help_flag_short_level. Qed.
+Print Assumptions C12_help_flag_short_level.
+
+(** non-vacuity: a three-level command, a chain through an alias, [--help] followed by an unknown flag *)
+Theorem C12_help_chain_satisfiable :
+  is_set s_no_binary_name hd_root = false /\ c_bin_name hd_root <> None /\ valid hd_root = true
+  /\ exists lv, help_chain (build_self hd_root) hd_names = Some lv /\ c_about lv = Some [116; 45; 97; 98]
+                /\ long_help_at lv true = true /\ short_help_at lv false = true
+                /\ parse_top hd_root ([112] :: hd_names ++ tok_help_long :: [[45; 45; 98; 111; 103; 117; 115]])
+                   = OErr (help_err lv true)
+                /\ parse_top hd_root ([112] :: hd_names ++ tok_help_short :: []) = OErr (help_err lv false).
+Proof. exact hd_hyps. Qed.
+Print Assumptions C12_help_chain_satisfiable.
+
+(** ---- round 2: the usage line mentions every required positional ---- *)
+
+(** on a built command whose positional indices identify the argument (what [_build_self] and the debug
+    asserts establish) every required positional -- hidden or not -- has its piece in the usage line *)
+Theorem C12_usage_lists_required_positionals : forall c items a,
+  args_ok c -> usage_arg_items c = Some items ->
+  In a (hc_args c) -> ha_is_positional a = true -> ha_required a = true ->
+  (forall b, In b (hc_args c) -> ha_index b = ha_index a -> ha_id b = ha_id a) ->
+  In (ha_id a) (map fst items).
+Proof. exact usage_lists_required_positionals. Qed.
+Print Assumptions C12_usage_lists_required_positionals.
+
+Theorem C12_usage_required_satisfiable :
+  args_ok ex_built /\ usage_arg_items ex_built = Some [([102], [60; 102; 62])] /\ In ex_f (hc_args ex_built)
+  /\ ha_is_positional ex_f = true /\ ha_required ex_f = true
+  /\ (forall b, In b (hc_args ex_built) -> ha_index b = ha_index ex_f -> ha_id b = ha_id ex_f).
+Proof. exact ex_cmd_usage. Qed.
+Print Assumptions C12_usage_required_satisfiable.
+
+(** ---- round 2: global arguments are inherited into the subcommand levels ---- *)
+
+(** the level [_build_subcommand] returns for a subcommand other than the generated [help] subcommand has an
+    argument with the id of every global argument of the parent (its help lists it when it is shown there:
+    [C12_lists_visible_args]) *)
+Theorem C12_globals_in_level : forall c a name lv,
+  hc_built c = false -> In a (hc_args c) -> ha_global a = true ->
+  h_build_subcommand (h_build_self c) name = Some (Some lv) ->
+  (beq name s_help && negb (h_is_set hs_no_help_sub (h_build_self c))) = false ->
+  exists b, In b (hc_args lv) /\ ha_id b = ha_id a.
+Proof. exact globals_in_level. Qed.
+Print Assumptions C12_globals_in_level.
+
+Theorem C12_globals_satisfiable :
+  hc_built gl_cmd = false /\
+  exists a lv, In a (hc_args gl_cmd) /\ ha_global a = true
+    /\ h_build_subcommand (h_build_self gl_cmd) [115] = Some (Some lv)
+    /\ (beq [115] s_help && negb (h_is_set hs_no_help_sub (h_build_self gl_cmd))) = false
+    /\ map ha_id (hc_args lv) = [[111]; [103]; s_help].
+Proof. exact gl_cmd_level. Qed.
+Print Assumptions C12_globals_satisfiable.
